@@ -2,7 +2,9 @@
 from .. import scen, stackprop
 
 CODES = {1: "listener notifications do not alternate offered/stopped", 2: "listener history differs from the specification (live offer / TTL / withdrawal)",
-         3: "reboot: 'stopped' reported after 'offered' of the same message", 98: "checker could not decode"}
+         3: "reboot: 'stopped' reported after 'offered' of the same message",
+         4: "loop idle: latest notification is 'offered' although the source's most recent offer has expired or was withdrawn",
+         5: "loop idle: latest notification is not 'offered' although a live offer arrived while the (still registered) listener was registered", 98: "checker could not decode"}
 
 
 def static_discovery(r):
@@ -47,6 +49,51 @@ def directed_renewal(r):
     return dict(cfg=tuple(cfg), insts=[], draws=[0] * 4, events=events, end=t0 + ttl1 * T + 2 * T, rev=r.random() < 0.3, fuel=20000)
 
 
+def directed_rewatch(r):
+    """A listener that unregisters and registers again (same or another matching registration) while the source goes on
+    talking: stop-offer, renewal with another TTL, reboot evidence, silence - during the gap, with or without another
+    listener keeping the service watched."""
+    from .. import conv
+    T = scen.T
+    cfg = list(scen.timings(r))
+    cfg[11] = r.choice([0, 5 * scen.MS])
+    peers = {1: scen.Peer(1)}
+    svc = r.choice(scen.SERVICES)
+    flt = conv.s_service(scen.FILTERS[0] if svc.service_id == 0x1111 else scen.FILTERS[3])
+    reg_all, unreg_all = (1, [5, [0, 0]]), (1, [6, [0, 0]])
+    reg_f, unreg_f = (1, [3, flt, [0, 0]]), (1, [4, flt, [0, 0]])
+    first = r.choice(["all", "filter"])
+    second = r.choice(["all", "filter"])
+    events = [(0, reg_all if first == "all" else reg_f)]
+    if r.random() < 0.3:
+        events.append((0, (1, [5, [0, 1]]) if r.random() < 0.5 else (1, [3, flt, [0, 1]])))     # somebody else keeps watching
+    ttl1 = r.choice([0xFFFFFF, 0xFFFFFF, 3, 2])
+    t = r.choice([1, T // 4])
+    events.append((t, (0, 1, False, peers[1].datagram([svc.create_offer_entry(ttl1)], False))))
+    t += r.choice([1, T // 8, T // 2])
+    events.append((t, unreg_all if first == "all" else unreg_f))
+    gap = r.choice(["stop", "stop", "shorter", "longer", "reboot", "reboot+offer", "none"])
+    t += r.choice([0, 1, T // 8])
+    if gap == "stop":
+        events.append((t, (0, 1, False, peers[1].datagram([svc.create_offer_entry(0)], False))))
+    elif gap == "shorter":
+        events.append((t, (0, 1, False, peers[1].datagram([svc.create_offer_entry(1)], False))))
+    elif gap == "longer":
+        events.append((t, (0, 1, False, peers[1].datagram([svc.create_offer_entry(0xFFFFFF)], False))))
+    elif gap == "reboot":
+        peers[1].reboot()
+        events.append((t, (0, 1, False, peers[1].datagram([], False))))
+    elif gap == "reboot+offer":
+        peers[1].reboot()
+        events.append((t, (0, 1, False, peers[1].datagram([svc.create_offer_entry(r.choice([1, 0xFFFFFF]))], False))))
+    t += r.choice([0, 1, T // 8, T + T // 2])
+    events.append((t, reg_all if second == "all" else reg_f))
+    if r.random() < 0.3:
+        t += r.choice([1, T // 4])
+        events.append((t, (0, 1, False, peers[1].datagram([svc.create_offer_entry(r.choice([0, 1, 3]))], False))))
+    return dict(cfg=tuple(cfg), insts=[], draws=[0] * 4, events=events, end=t + r.choice([1, T // 2, 2 * T, 4 * T]), rev=r.random() < 0.3, fuel=20000)
+
+
 def run(ctx):
     r = ctx.rng
     quick = ctx.tier == "quick"
@@ -60,11 +107,11 @@ def run(ctx):
     n = 300 if quick else 12000
     scs = stackprop.corpus_scenarios("C05")
     for k in range(n):
-        scs.append(directed_renewal(r) if k % 10 == 9 else static_discovery(r) if k % 2 == 0 else scen.discovery_scenario(r))
+        scs.append(directed_renewal(r) if k % 10 == 9 else directed_rewatch(r) if k % 10 == 4 else static_discovery(r) if k % 2 == 0 else scen.discovery_scenario(r))
     if not quick:
         for k in range(3000):
             scs.append(static_discovery(r) if k % 2 == 0 else scen.discovery_scenario(r, small=True, length=r.randint(1, 5)))
-    stackprop.run_scenarios(ctx, scs, 3005, CODES, known_codes={9: "F13"}, kind_of=lambda sc: "static" if all(e[1][0] not in (4, 6) for t, e in sc["events"] if e[0] == 1) else "dynamic", what="discovery")
+    stackprop.run_scenarios(ctx, scs, 3005, CODES, known_codes={9: "F13", 18: "F18"}, kind_of=lambda sc: "static" if all(e[1][0] not in (4, 6) for t, e in sc["events"] if e[0] == 1) else "dynamic", what="discovery")
 
 
 def replay(ctx, rp):
